@@ -716,7 +716,6 @@ def _call_forms_clause(T, mesh, info, kind, rep: Report, mtag):
     keyword, all positionally in the documented order, a positional prefix) for every meaning of `_meanings` must satisfy the
     oracle for the documented meaning and give the same tables as the all-keyword call. None roots are answered by the seam."""
     n, L = info.nv, len(info.E)
-    kname = KIND_NAME[kind]
     all_epairs = set(info.E)
 
     def report(style, callee, kind_, omitted, detail):
